@@ -5,12 +5,21 @@ On the unchanged tree every corpus entry passes; they run first in every check o
 import glob, json, os, subprocess, sys
 def sh(c): return subprocess.run(c, shell=True, stdout=subprocess.PIPE, stderr=subprocess.STDOUT, text=True)
 assert sh("git -C /repo status --porcelain -- src").stdout.strip() == ""
+# usage: build_corpus.py [--only e,f,g]   (round letters: merge the new entries into the existing corpus files)
+only = sys.argv[sys.argv.index("--only") + 1].split(",") if "--only" in sys.argv else None
 corpus = {}
+if only:
+    for f in glob.glob("/verif/corpus/*.json"):
+        corpus[os.path.basename(f)[:-5]] = json.load(open(f))
 for d in sorted(glob.glob("/verif/seeded/*/")):
     name = os.path.basename(d.rstrip("/"))
+    if only and not (len(name) > 4 and name[4] == "-" and name[3] in only):
+        continue
+    if not os.path.exists(d + "meta.json") or not os.path.exists(d + "patch.diff"):
+        continue
     meta = json.load(open(d + "meta.json"))
     pid = meta["property"]
-    targets = [pid] + [p for p in meta.get("detected_with_failing_input", []) if p != pid][:2]
+    targets = [pid] + ([] if only else [p for p in meta.get("detected_with_failing_input", []) if p != pid][:2])
     assert sh(f"git -C /repo apply {d}patch.diff").returncode == 0
     try:
         for p in targets:
@@ -24,7 +33,7 @@ for d in sorted(glob.glob("/verif/seeded/*/")):
                     print(name, p, len(r["minimised_ops"]), "ops")
                     break
     finally:
-        sh("git -C /repo checkout -- .")
+        sh("git -C /repo checkout -- . && git -C /repo clean -fdq src")
 os.makedirs("/verif/corpus", exist_ok=True)
 for p, es in corpus.items():
     # de-duplicate
